@@ -363,8 +363,34 @@ def r15c(ctx, rep):
     rep.floor('R15c', 'execute_statement dispatchers', found, 1)
 
 
+def r15d(ctx, rep, cr):
+    rep.rule('R15d', 'no unchecked indexing on the way from text to tree: every slice/array index in neumann_parser that compiles to a bounds '
+                     'check (index out of range = panic) is reachable only through a test index < len on the same index value and the same '
+                     'buffer, with no reassignment of the index in between; range-indexing of the source string is listed as a candidate. '
+                     'Today the lexer and both parsers contain no such index at all (they walk Chars / token vectors through get/peek)')
+    n = 0
+    nf = 0
+    for name, f in sorted(cr.fns.items()):
+        nf += 1
+        bad, k = lib.undischarged_bounds(f)
+        n += k
+        for j, (bb, line, why) in enumerate(bad):
+            rep.analysed(f)
+            rep.violation('R15d', f, 'unchecked-index', f.loc(line),
+                          'this index can be out of range (%s) with no dominating `index < len` test on that value: an input that ends at the '
+                          'wrong byte makes tokenize()/parse() panic instead of returning an error' % why)
+        for c in A.calls(f):
+            if not c.exp and re.search(r'ops::Index(Mut)?<.*Range.*>>::index(_mut)?$', c.resolved) and re.search(r'for str|<str as|\[T\]|\[u8\]', c.resolved):
+                rep.candidate('R15d', f, f.loc(c.line), 'range index into a string/slice (panics when out of range or off a char boundary) — listed, not armed')
+    rep.notes.append('R15d: %d functions scanned, %d bounds-checked index sites' % (nf, n))
+    if not rep.floor('R15d', 'neumann_parser functions scanned for bounds checks', nf, 200):
+        return
+    rep.holds('R15d', 'neumann_parser', 'bounds-checked index sites', '%d sites examined' % n)
+
+
 def run(ctx, rep):
     cr = ctx.crate('neumann_parser')
     r15a(ctx, rep, cr)
     r15b(ctx, rep, cr)
     r15c(ctx, rep)
+    r15d(ctx, rep, cr)
